@@ -38,7 +38,7 @@ def main():
             props = [m["property"]] + props
         tree = tempfile.mkdtemp(prefix="vfx-")
         os.rmdir(tree)
-        sh(["git", "-C", "/repo", "worktree", "add", "--detach", tree, "HEAD"])
+        sh(["git", "-C", "/repo", "worktree", "add", "--detach", tree, m.get("base_commit", "HEAD")])
         try:
             rc, out = sh(["git", "-C", tree, "apply", os.path.join(os.path.dirname(mf), "patch.diff")])
             if rc != 0:
